@@ -58,9 +58,11 @@ func (p *Parser) SetLastEvaluatedT(some any) {
 	p.lastEvaluatedT = some
 
 	if p.ErrorRow == p.LspTargetRow {
-		switch p.lastEvaluatedT.(type) {
+		switch evaluatedT := p.lastEvaluatedT.(type) {
 		case *base.T:
-			p.LspSuggestTargetT = *p.lastEvaluatedT.(*base.T)
+			if evaluatedT != nil {
+				p.LspSuggestTargetT = *evaluatedT
+			}
 		}
 	}
 }
